@@ -584,6 +584,31 @@ func (r *Run) learnVersion(b *model.Bucket, key string, v *model.Version, resp *
 	}
 }
 
+// fsKeyConflict tells whether, on a file-system backend, the key is in a
+// path relation (ancestor or descendant) with a stored key.  maybe: only with
+// keys whose existence is indeterminate after a disk fault.
+func (r *Run) fsKeyConflict(bucket, key string) (sure, maybe bool) {
+	if !r.Plan.Config.IsFS() {
+		return false, false
+	}
+	b := r.M.Buckets[bucket]
+	if b == nil {
+		return false, false
+	}
+	for name, k := range b.Keys {
+		if name == key || !(strings.HasPrefix(key, name+"/") || strings.HasPrefix(name, key+"/")) {
+			continue
+		}
+		switch {
+		case k.Indet:
+			maybe = true
+		case k.Live() != nil:
+			sure = true
+		}
+	}
+	return sure, maybe && !sure
+}
+
 // opPut is an honest upload (PUT, aws-chunked PUT or browser form POST).
 func (r *Run) opPut(op *Op) {
 	ent := r.entityFor(op)
@@ -604,6 +629,24 @@ func (r *Run) opPut(op *Op) {
 	if b == nil {
 		r.expectNoBucket(resp, "PUT object")
 		return
+	}
+	if sure, maybe := r.fsKeyConflict(op.B, op.Key); sure || maybe {
+		// a file-system backend cannot hold a key and another key below it;
+		// it refuses the newcomer and both stay as they were
+		if resp.OK() {
+			if sure {
+				r.fail("frame.others", "a file-system backend accepts a key that is a path prefix of a stored key or lies below one "+r.bctx(), "4xx", resp.String())
+			}
+		} else if resp.Status >= 400 && resp.Status < 500 {
+			r.probe("upload refused: key in a path relation with a stored key (fs)")
+			r.logf("  -> %s (path conflict)", resp.String())
+			return
+		} else if sure {
+			r.fail("read.content", fmt.Sprintf("an upload whose key conflicts with a stored key is answered with a server error (%s) %s", uploadKind(op), r.bctx()), "4xx", resp.String())
+		}
+		if !resp.OK() {
+			return
+		}
 	}
 	if !resp.OK() {
 		cl := "read.content"
